@@ -31,6 +31,13 @@
      CTunnelBuf      a package-level (pooled) scratch buffer for tunnelled bodies.  The CURRENT code has none: the buffer of
                      EncodeTunnelledQuery (tunnelling.go:18) is allocated per call and is part of CReq r RCallReq; the cell
                      exists for the variant [pooled_tunnel] only.
+     CReqFields      the RequiredFields objects: the package-level XxxRequiredFields the generator emits for every record, the
+                     ones of the envelope records in restli / restlidata (v2/restlicodec/reader.go:195-222), all of them as ONE cell
+                     (a coarsening: what holds of the one cell holds of each object).  They are complete once constructed
+                     (NewRequiredFields / Add run in package initialisation); reading a record only reads them: readRecord
+                     (reader.go:125-127) and QueryParamsReader.ReadRecord (query_reader.go:36-38) copy the field names into a map
+                     of their own (toMap, reader.go:212-222), which is part of CReq r RReaders.  The variant
+                     [lazy_required_index] completes the object on first use instead.
 
    Out of the model (DESIGN.md section 7): what user code (a Filter, a resource method, a custom marshaler) does with
    ITS OWN state; the Go memory model itself (happens-before through sync.Map / sync.Mutex is the meaning given to
@@ -76,7 +83,8 @@ Inductive cellid :=
 | CSnap (a : Announce.addr)
 | CRng
 | CRegistry
-| CTunnelBuf.
+| CTunnelBuf
+| CReqFields.
 
 Inductive sync := Plain | Atomic | Locked (l : nat).
 
@@ -113,17 +121,26 @@ Record variant := {
   rng_unlocked : bool;     (* serviceUris.go:16-20 as pinned: rng.Float64() without rngLock *)
   shallow_handler : bool;  (* Handler() handing out the live tree / filters slice instead of a deep copy *)
   state_in_root : bool;    (* per-request state kept in a rootNode field *)
-  pooled_tunnel : bool     (* EncodeTunnelledQuery assembling the body in a recycled package-level buffer and returning
+  pooled_tunnel : bool;    (* EncodeTunnelledQuery assembling the body in a recycled package-level buffer and returning
                               a slice of it: the request built from it still reads the buffer when it is sent *)
+  lazy_required_index : bool  (* RequiredFields keeping a field -> position index that is built IN PLACE, unsynchronised,
+                              by the first record read that needs it (instead of a per-read map): whoever reads a record
+                              tests the index, the first ones fill it while others already look fields up in it *)
 }.
 
 Definition current : variant :=
   {| err_inplace := false; rng_unlocked := false; shallow_handler := false; state_in_root := false;
-     pooled_tunnel := false |}.
+     pooled_tunnel := false; lazy_required_index := false |}.
 
 Definition tree_owner (v : variant) (k : nat) : owner := if shallow_handler v then Live else Copy k.
 
 (* ------------------------------------------------------------------------------------------------ serving a request *)
+
+(* reading ONE record (reader.go:125-152 readRecord, query_reader.go:36-52): the RequiredFields object of its type is read
+   (toMap copies the names into a map of the reader's own).  Variant: the index is tested, built in place when absent,
+   then consulted for every field read *)
+Definition required_fp (v : variant) : list access :=
+  if lazy_required_index v then [rd CReqFields; wr CReqFields; rd CReqFields] else [rd CReqFields].
 
 (* what the resource method does, as far as sharing is concerned: the error / success object it hands back may be one
    that other requests receive too *)
@@ -204,12 +221,14 @@ Fixpoint receive_fp (o : owner) (r : rid) (fuel : nat) (p : node) (at_ : list by
   end.
 
 (* one event of Router.exec's trace as accesses *)
-Definition event_fp (o : owner) (r : rid) (ev : event) : list access :=
+Definition event_fp (v : variant) (o : owner) (r : rid) (ev : event) : list access :=
   match ev with
   | EvPre _ _ =>      (* handler.go:342-351: p.rootNode.filters[i].PreRequest(ctx.Request); ctx.Request = WithContext *)
       [rd (CRoot o); rd (CReq r RCtx); rd (CReq r RRequest); wr (CReq r RRequest); wr (CReq r RCtx)]
-  | EvStub _ =>       (* :353 h(ctx, segmentReaders(..), body) and the wrapper Register* installed (:520-541) *)
-      [wr (CReq r RReaders); rd (CReq r RBody); rd (CReq r RRequest); wr (CReq r RCtx); wr (CReq r RRespHeader)]
+  | EvStub _ =>       (* :353 h(ctx, segmentReaders(..), body) and the wrapper Register* installed (:520-541): it decodes
+                         the path keys, the query parameters and the body - records read with their RequiredFields *)
+      [wr (CReq r RReaders); rd (CReq r RBody); rd (CReq r RRequest)] ++ required_fp v
+      ++ [wr (CReq r RCtx); wr (CReq r RRespHeader)]
   | EvPost _ _ =>     (* :110-117 r.filters[i].PostRequest(ctx.Request.Context(), res.Header()) *)
       [rd (CRoot o); rd (CReq r RCtx); rd (CReq r RRequest); wr (CReq r RRespHeader)]
   end.
@@ -220,7 +239,7 @@ Definition exec_fp (v : variant) (o : owner) (r : rid) (fs : list fkind) (beh : 
   : list access :=
   let ob := exec fs (beh_fails beh) body t in
   [rd (CReq r RRequest); wr (CReq r RBody); wr (CReq r RRequest); wr (CReq r RCtx)]
-  ++ flat_map (event_fp o r) (o_events ob)
+  ++ flat_map (event_fp v o r) (o_events ob)
   ++ (if o_restli ob then
         match o_stub ob, beh with
         | Some _, BErr e msg_nil => shared_error v r e msg_nil       (* the resource's own error object *)
@@ -321,7 +340,9 @@ Definition call_fp (v : variant) (c : nat) (r : rid) (res : resolver) : list acc
   ++ (if pooled_tunnel v then [wr CTunnelBuf] else [])          (* EncodeTunnelledQuery writing the body (tunnelling.go:18-31) *)
   ++ [wr (CReq r RCallReq); rd (CClient c)]
   ++ (if pooled_tunnel v then [rd CTunnelBuf] else [])          (* the transport reading the request body *)
-  ++ [Acc (CTransport c) true Atomic; wr (CReq r RCallResp); rd (CClient c)].
+  ++ [Acc (CTransport c) true Atomic; wr (CReq r RCallResp)]
+  ++ required_fp v                                              (* DoAndUnmarshal decoding the response record (http.go:298-345) *)
+  ++ [rd (CClient c)].
 
 (* custom_typerefs.go:40-47 loadAdapter: sync.Map.Load; :20-38 RegisterCustomTyperef: sync.Map.LoadOrStore *)
 Definition reg_lookup_fp : list access := [Acc CRegistry false Atomic].
